@@ -1,6 +1,6 @@
 """Workload profiles: one per claimed property. A profile names the history
 generator, the oracles to evaluate, and how coverage is reported."""
-from . import gen_hist, gen_c13
+from . import gen_hist, gen_c13, gen_c20
 
 
 def _fault_table(counters):
@@ -85,7 +85,45 @@ def c13_warnings(res, tier):
     return out
 
 
+def c20_coverage(res, n_runs, t_batch, workers):
+    from .batch import sample_of
+    cov = _common_coverage(res, n_runs, t_batch, workers)
+    cov['distinct_nontrivial'] = len(res.distinct_keys)
+    cov['cells_reached'] = len(res.distinct_keys)
+    cov['cells_nominal'] = 32 * 18 * 3
+    cov['rule'] = ('one evaluation = one seeded history of 3-12 ops: a host keeps a global config and reloads it between calls '
+                   '(set_global), edits its user layer (add/remove keys, switch syntax), builds Config(user, global) (resolve) '
+                   'and calls expand(abbr, user, global), for all 16 known syntaxes of both types plus unknown names, with '
+                   'malformed input (F1) and callee failures (F5) in between. After every op the built-in tables are compared '
+                   'with their pristine snapshot; around every Config(...)/expand the caller\'s dicts are compared; every '
+                   'resolved Config is compared with the layered-merge reference model; every unfaulted expand is compared '
+                   'with expand on the model\'s flattened config. A probe is non-trivial iff at least one overriding layer '
+                   'mentions the probed key; distinct by cell = (which of the 5 overriding layers mention the key, syntax '
+                   'name, key kind option/snippet/variable); cells_nominal = 2^5 x 18 x 3 includes cells the built-in tables '
+                   'make unreachable (e.g. no built-in layer defines variables).')
+    cov['samples'] = [sample_of(o) for o in res.samples[:2]]
+    return cov
+
+
+def c20_warnings(res, tier):
+    out = []
+    for k in ['c20:configs-resolved', 'c20:expand-compared-with-flattened-config', 'c20:table-snapshots-compared',
+              'fault-fired:F5', 'fault-fired:natural(F1)']:
+        if not res.counters.get(k):
+            out.append('reach probe stuck at zero: %s' % k)
+    return out
+
+
 PROFILES = {
+    'C20': {
+        'gen': gen_c20.gen_c20,
+        'props': ['C20'],
+        'coverage': c20_coverage,
+        'warnings': c20_warnings,
+        'level': 'exploration',
+        'quick_runs': 8000,
+        'thorough_runs': 200000,
+    },
     'C13': {
         'gen': gen_c13.gen_c13,
         'props': ['C13'],
@@ -101,7 +139,7 @@ PROFILES = {
         'coverage': c08_coverage,
         'warnings': c08_warnings,
         'level': 'exploration',
-        'quick_runs': 6000,
+        'quick_runs': 4000,
         'thorough_runs': 150000,
     },
 }
